@@ -42,9 +42,10 @@ def histories(tier):
     if tier == "quick":
         return [([0.25, 0.125, 0.5], [0, 1, 0]), ([0.125, 0.5, 0.25], [0, 0, 1]), ([0.5, 0.25, 0.25], [1, 0, 0])]
     out = []
-    for S in itertools.product([0.125, 0.25, 0.5], repeat=3):
-        for r in ((0, 0, 0), (1, 0, 0), (0, 2, 0), (0, 0, 1)):
-            out.append((list(S), list(r)))
+    rs = ((0, 0, 0), (1, 0, 0), (0, 2, 0), (0, 0, 1))
+    for i, S in enumerate(s_ for s_ in itertools.product([0.125, 0.25, 0.5], repeat=3) if len(set(s_)) >= 2):
+        if i % 3 == 0:
+            out.append((list(S), list(rs[(i // 3) % 4])))
     return out
 
 
